@@ -13,6 +13,16 @@ import (
 
 func (f *frame) instr(in ssa.Instruction, st *bstate) {
 	vc := f.vc
+	if top := f.topFrame(); top.escSites != nil {
+		if refs, ok := top.escSites[in]; ok {
+			if st.leaked == nil {
+				st.leaked = map[string]bool{}
+			}
+			for _, r := range refs {
+				st.leaked[r] = true
+			}
+		}
+	}
 	switch x := in.(type) {
 	case *ssa.DebugRef:
 		f.debugRef(x)
@@ -231,6 +241,23 @@ func (f *frame) alloc(x *ssa.Alloc, st *bstate) {
 	f.setVal(x, r)
 	la := &localAlloc{ref: r, ty: et, instr: x, escaped: allocEscapes(x)}
 	f.locals = append(f.locals, la)
+	if la.escaped {
+		// flow-sensitive refinement: until one of its escape sites has executed
+		// the object is still private
+		if sites, ok := escapeSites(x); ok {
+			top := f
+			for top.caller != nil {
+				top = top.caller
+			}
+			if top.escSites == nil {
+				top.escSites = map[ssa.Instruction][]string{}
+			}
+			for _, s := range sites {
+				top.escSites[s] = append(top.escSites[s], r.T)
+			}
+			la.tracked = true
+		}
+	}
 	// zero-initialise
 	lv := f.lvOfRef(r.T, et)
 	f.store(st, lv, TV{T: f.sr().zero(et), S: f.sortOf(et), Ty: et})
@@ -1090,4 +1117,46 @@ func readOnlyCapture(a ssa.Value, u *ssa.MakeClosure) bool {
 		}
 	}
 	return true
+}
+
+// escapeSites: the instructions through which the address of a (or an
+// address derived from it) can first become visible to other code: every
+// referrer that is not a plain load, a store INTO the object or an address
+// computation. ok=false when referrers are unknown.
+func escapeSites(a ssa.Value) (sites []ssa.Instruction, ok bool) {
+	seen := map[ssa.Value]bool{}
+	ok = true
+	var walk func(v ssa.Value)
+	walk = func(v ssa.Value) {
+		if seen[v] {
+			return
+		}
+		seen[v] = true
+		refs := v.Referrers()
+		if refs == nil {
+			ok = false
+			return
+		}
+		for _, r := range *refs {
+			switch u := r.(type) {
+			case *ssa.DebugRef:
+			case *ssa.UnOp:
+				if u.Op != token.MUL {
+					sites = append(sites, r)
+				}
+			case *ssa.Store:
+				if u.Val == v {
+					sites = append(sites, r)
+				}
+			case *ssa.FieldAddr:
+				walk(u)
+			case *ssa.IndexAddr:
+				walk(u)
+			default:
+				sites = append(sites, r)
+			}
+		}
+	}
+	walk(a)
+	return sites, ok
 }
